@@ -579,6 +579,7 @@ def check(ctx, rep):
     rep.rule("R03d", "history independence: persistent writes are exactly the two cache files; module-level state is only lazily initialised from configuration, never mutated per request", floor=2)
     rep.rule("R03f", "the stat performed on a still unfiltered selector catches ValueError (embedded NUL) as well as OSError", floor=2)
     rep.rule("R03g", "status lines echo request text only after line breaks were collapsed", floor=2)
+    rep.rule("R03h", "a Gopher+ `+N` status line announces the number of bytes that follow: transforming handlers leave the size unset, menus use the unknown-length marker", floor=5)
     rep.rule("R03i", "partial operations on text read from content files (link files, gophermaps, sidecars): index, unpack, int() are guarded", floor=8)
     rep.rule("R03e", "mailbox constructors (fail with mailbox.Error, not OSError) are guarded or converted", floor=2)
     rep.assume("served content (gophermaps, link files, mailboxes, archives) is well formed: partial operations on file content are not tracked")
@@ -692,6 +693,11 @@ def check(ctx, rep):
     shared_state_obligations(ctx, rep, "R03d", eff, request_functions(ctx, eff), sequential=True)
 
     pregate_stat_obligations(ctx, rep, "R03f", eff)
+
+    # ------------------------------------------------------------------ R03h (shared with C04/C15)
+    from .c04 import length_obligations
+
+    length_obligations(ctx, rep, "R03h")
 
     # ------------------------------------------------------------------ R03i
     content_funcs = []
